@@ -7,6 +7,12 @@
                            os.urandom replaced by a logged counter-based source)  vs  Http.buildRequest
          3. `core`       : whole connections (reply variants x segmentation x trailing frames x 16 KiB
                            boundary) through harness/world.py  vs  the core model
+         4. `http sha1` / `http accept` / `http keyof` : the model's SHA-1 and accept value (Model/Sha1.lean,
+                           Handshake.acceptFor) vs hashlib/base64 as on_response spells them, on every key of
+                           layers 1-3 and on random byte strings of every length 0..200; the model's accept value
+                           is also put in front of the real on_response (must be granted Ready, a changed one not).
+       No operation line carries the expected accept value: the model computes it from the key (`http resp`)
+       resp. from the key it reads out of the request bytes (`core`).
    (S) oracle, independent of the model: hashlib/base64 digest of the key parsed out of the request that
        was really written (RFC 6455 4.2.2), a small RFC 7230 reply reader and an RFC 7230 request reader
        written here, RFC 7692 7.1 parameter rules.  Verdicts: ready | rejected | either (`either` only for
@@ -21,12 +27,15 @@ from refcodec import server_frame
 TRUSTED = ['correspondence: harness/props/c10.py (generators, canonical printing) + harness/world.py',
            'oracle: hashlib.sha1 + base64 of CPython, the RFC 7230 / RFC 7692 readers in harness/props/c10.py',
            'urllib.parse.urlparse (CPython) is outside the model: the model starts from the components it returns']
-ASSUMPTIONS = ['SHA-1/base64 digest is a parameter of the theorems (computed by hashlib in the harness)',
+ASSUMPTIONS = ['the SHA-1/base64 of the model (Model/Sha1.lean, Handshake.acceptFor) is the function hashlib/base64 compute: test vectors by kernel '
+               'evaluation (C10_Digest.sha1_abc, sha1_empty, sha1_two_blocks, accept_rfc6455_example) + differential test on every run (layer 4); '
+               'nothing is claimed about SHA-1 as a hash',
                'URL strings, agent, protocol names and custom headers contain no CR/LF and no blanks where the theorem says so',
                'constructs outside the RFC grammar on which the property text is silent are compared model-vs-code only '
                '(status forms int() accepts such as +101/0101/1_01, VT/FF/FS-US around values, unknown extension parameters)']
 
-LEANCHECK_MODULES = ['Lomond.Proofs.Http', 'Lomond.Proofs.HandshakeCore', 'Lomond.Model.Handshake', 'Lomond.Model.Http']
+LEANCHECK_MODULES = ['Lomond.Proofs.Http', 'Lomond.Proofs.HandshakeCore', 'Lomond.Proofs.Sha1', 'Lomond.Model.Handshake', 'Lomond.Model.Http',
+                     'Lomond.Model.Sha1', 'Lomond.Model.Attempt']
 
 GUID = b'258EAFA5-E914-47DA-95CA-C5AB0DC85B11'      # RFC 6455 section 1.3 (not imported from lomond)
 CRLF = b'\r\n'
@@ -835,6 +844,87 @@ def judge_conn(res, js, line, real, meta, sc):
 
 # =============================================================================================
 
+# =============================================================================================
+# layer 4: SHA-1 / accept value of the model vs hashlib / base64 (and vs the real on_response)
+
+BLOCK_EDGES = (0, 1, 19, 20, 27, 28, 55, 56, 57, 63, 64, 65, 83, 84, 91, 92, 119, 120, 121, 127, 128, 129, 183, 184, 191, 192, 200)
+
+
+def real_digests(msgs):
+    """the two computations exactly as `on_response` spells them (`from hashlib import sha1`, `from base64 import b64encode`,
+       `constants.WS_KEY`): (sha1(m).digest(), b64encode(sha1(m + constants.WS_KEY).digest()))"""
+    from hashlib import sha1
+    from base64 import b64encode
+    from lomond import constants
+    return [(sha1(m).digest(), b64encode(sha1(m + constants.WS_KEY).digest())) for m in msgs]
+
+
+def change_accept(acc):
+    """an accept value that differs from `acc` in one character and not only in letter case"""
+    c = acc[:1]
+    if c.isdigit():
+        d = b'%d' % ((int(c) + 1) % 10)
+    elif c.isalpha():
+        d = bytes([c[0] + 1]) if c.lower() != b'z' else (b'a' if c == b'z' else b'A')
+    else:
+        d = b'/' if c == b'+' else b'+'
+    assert d.lower() != c.lower()
+    return d + acc[1:]
+
+
+def digest_layer(res, rng, quick, model_ok, strict, keys_seen):
+    msgs = []
+    per_len = 10 if quick else 60
+    for n in range(201):
+        for j in range(per_len):
+            msgs.append(bytes(rng.getrandbits(8) for _ in range(n)))
+    for n in BLOCK_EDGES:
+        msgs += [bytes(n), b'\xff' * n, b'\x80' * n, bytes(range(256))[:n] if n <= 256 else bytes(n)]
+    msgs += [b'abc', b'', b'abcdbcdecdefdefgefghfghighijhijkijkljklmklmnlmnomnopnopq', b'a' * 1000, b'dGhlIHNhbXBsZSBub25jZQ==', bytes(range(256)) * 3]
+    nrandom = len(msgs)
+    msgs += sorted(keys_seen)
+    res.exhaustive['sha1_message_lengths_0_to_200'] = 201
+    real = real_digests(msgs)
+    if real[msgs.index(b'abc')][0].hex() != 'a9993e364706816aba3e25717850c26c9cd0d89d' or \
+       real_digests([b'dGhlIHNhbXBsZSBub25jZQ=='])[0][1] != rfc_accept(b'dGhlIHNhbXBsZSBub25jZQ=='):
+        res.failures.append(dict(cls='digest', what='lomond computes the accept value with another GUID or hash than RFC 6455 4.2.2 says',
+                                 input=dict(kind='digest', msg=b'dGhlIHNhbXBsZSBub25jZQ=='.hex())))
+    for i, m in enumerate(msgs):
+        res.case(('digest', m), nontrivial=len(m) > 0)
+        res.count('digest:key-of-a-case' if i >= nrandom else 'digest:len%%64=%s' % ('55..56' if len(m) % 64 in (55, 56) else ('63..0' if len(m) % 64 in (63, 0) else 'other')))
+    if not model_ok:
+        return
+    mo = runner.model_run(['http sha1 ' + m.hex() for m in msgs] + ['http accept ' + m.hex() for m in msgs])
+    for i, (m, (d, a)) in enumerate(zip(msgs, real)):
+        res.traces_validated += 1
+        if mo[i] != d.hex():
+            res.diffs.append(dict(input='http sha1 ' + m.hex(), real=d.hex(), model=mo[i]))
+        if mo[len(msgs) + i] != a.hex():
+            res.diffs.append(dict(input='http accept ' + m.hex(), real=a.hex(), model=mo[len(msgs) + i]))
+    # the model's accept value in front of the REAL on_response (the hash inside on_response, not a re-computation):
+    # granted Ready; with one character changed: refused
+    probes = []
+    for i, m in enumerate(msgs):
+        acc = bytes.fromhex(mo[len(msgs) + i])
+        head = b'HTTP/1.1 101 Switching Protocols\r\nUpgrade: websocket\r\nSec-WebSocket-Accept: '
+        probes.append((m.hex(), (head + acc + CRLF + CRLF).hex()))
+        probes.append((m.hex(), (head + change_accept(acc) + CRLF + CRLF).hex()))
+    outs = []
+    for part in runner.parallel_map('props.c10', 'real_resp_many', [probes[j:j + 1000] for j in range(0, len(probes), 1000)], chunk=1):
+        if isinstance(part, dict):
+            res.crashes.append(part)
+            return
+        outs.extend(part)
+    for j, out in enumerate(outs):
+        good = j % 2 == 0
+        res.traces_validated += 1
+        if (' res=ok:' in out) != good:
+            res.diffs.append(dict(input='http accept ' + probes[j][0], real='on_response %s the reply carrying %s' % ('refuses' if good else 'accepts', 'the model\'s accept value' if good else 'a changed accept value'),
+                                  model=bytes.fromhex(mo[len(msgs) + j // 2]).decode('latin-1')))
+    res.count('digest:real-on_response-probes', len(outs))
+    res.samples += ['http accept ' + msgs[nrandom].hex() if len(msgs) > nrandom else 'http accept ']
+
+
 def explore(res, tier, seed, model_ok=True):
     import gencheck   # differential test of the translated code (Generated/Code.lean) against the original Python
     gencheck.run(res, 'C10', tier, seed, model_ok)
@@ -907,7 +997,8 @@ def explore(res, tier, seed, model_ok=True):
             res.crashes.append(part)
             return
         reals.extend(part)
-    models = runner.model_run(['http resp %d %s %s' % (1 if strict else 0, rfc_accept(k).hex(), b.hex()) for k, b, _ in metas]) if model_ok else None
+    # the model gets the KEY (state.key); it computes the expected accept value itself (Handshake.acceptFor)
+    models = runner.model_run(['http resp %d %s %s' % (1 if strict else 0, k.hex(), b.hex()) for k, b, _ in metas]) if model_ok else None
     for i, ((key, block, m), real) in enumerate(zip(metas, reals)):
         digest = rfc_accept(key)
         canonical = m['mode'] == 'good' and m['plain']
@@ -917,7 +1008,7 @@ def explore(res, tier, seed, model_ok=True):
             res.count('accept:' + m['sub'])
         res.traces_validated += 1
         if models is not None and models[i] != real:
-            res.diffs.append(dict(input='http resp %d %s %s' % (1 if strict else 0, digest.hex(), block.hex()), real=real[-1200:], model=models[i][-1200:]))
+            res.diffs.append(dict(input='http resp %d %s %s' % (1 if strict else 0, key.hex(), block.hex()), real=real[-1200:], model=models[i][-1200:]))
         got_ready = ' res=ok:' in real
         if m['mode'] == 'fuzz':
             # no verdict is defined for mutated bytes; only the necessary condition below is checked
@@ -950,7 +1041,8 @@ def explore(res, tier, seed, model_ok=True):
         if got_ready and (digest.lower() not in block.lower() or b'1' not in block.split(CRLF)[0]):
             res.failures.append(dict(cls='ready-on-bad-reply', what='Ready although the digest does not occur in the reply at all', input=inp, observed=real[-300:]))
     res.exhaustive['wrong_accept_kinds'] = len(WRONG_ACCEPT)
-    res.samples += ['http resp 0 <digest> ' + metas[j][1][:160].decode('latin-1').replace('\r\n', '\\r\\n') for j in (0, len(modes) + 1, len(modes) + 4)]
+    keys_seen = set(k for k, _b, _m in metas)       # every key of layers 1-3 goes through layer 4
+    res.samples += ['http resp 0 <key> ' + metas[j][1][:160].decode('latin-1').replace('\r\n', '\\r\\n') for j in (0, len(modes) + 1, len(modes) + 4)]
 
     # ---------------- layer 2 ----------------------------------------------------------------
     n2 = 120 if quick else 1500
@@ -980,6 +1072,7 @@ def explore(res, tier, seed, model_ok=True):
             key = judge_request(res, item, raw, fresh, used, dict(kind='req', item=item, connect=k)) if judged else None
             if key:
                 used.add(key)
+                keys_seen.add(key)
             # model: the key of this connect is b64 of the draw made by this connect's reset()
             rnd16 = fresh[0] if fresh else ''
             lines.append(req_model_line(item, rnd16, agent))
@@ -1039,6 +1132,21 @@ def explore(res, tier, seed, model_ok=True):
             res.count('conn:block-bytes:%s' % (meta['total'] if 16380 <= meta['total'] <= 16390 else ('<16384' if meta['total'] < 16384 else '>16384')))
     coreutil.check_corr(res, pairs)
     res.samples += [p[1][:300] for p in pairs[:2] if not isinstance(p[2], dict)]
+    # the expected accept value is no input of the model: no line carries it, and the key the model reads out of the
+    # request bytes of the line (Handshake.keyOfRequest -> challenge) is the key the scenario's connection sends
+    reqs = []
+    for (js, line, real, model), sc in zip(pairs, scs):
+        if ' chal=' in line:
+            res.diffs.append(dict(input=line[:300], real='no chal= token', model='the core line passes the accept value as an input'))
+        reqs.append((line.split(' req=', 1)[1].split(' ', 1)[0], sc.key()))
+        keys_seen.add(sc.key())
+    if model_ok and reqs:
+        for (rq, key), got in zip(reqs, runner.model_run(['http keyof ' + rq for rq, _ in reqs])):
+            if got != key.hex():
+                res.diffs.append(dict(input='http keyof ' + rq[:600], real=key.hex(), model=got))
+
+    # ---------------- layer 4: the digest ------------------------------------------------------
+    digest_layer(res, rng, quick, model_ok, strict, keys_seen)
     res.notes.append('observations (not judged): lomond accepts status forms +101/0101/1_01, any first token as HTTP version, VT/FF/FS..US as blanks around values, '
                      'unknown extensions/parameters, permessage-deflate although not offered, and does not look at the Connection header')
 
